@@ -99,6 +99,7 @@ func HostsLines(thorough bool) []Family {
 				}
 			}})
 	}
+	fams = append(fams, List("line_bytesweep", ByteSweep([]string{"1.2.3.4 host.example", "::1\tlocal.host alias # c", " fe80::1%eth0  a.b\tc.d", "1.2.3.4 a#b", "1.2.3.4"})))
 	// 3..5 names, sampled, with the invalid one at every index
 	fams = append(fams, Random("line_manynames", pick(300_000, 6_000_000), func(rng *rand.Rand) string {
 		var sb strings.Builder
